@@ -517,18 +517,40 @@ def git_errors(F, rep, cg):
             rep.ok(rule, "git result handled by combinator %s" % uses, sample=site, nontrivial_key=key)
         else:
             rep.bad(rule, "git-unhandled:" + key, "result of a git invocation is neither propagated nor handled (uses: %s)" % uses, site)
-    # the runner itself: both failure sources become Err
-    errs = sum(1 for bi, t in r.calls() if "Try>::branch" in (mir.callee(t) or ""))
-    err_aggs = sum(1 for bi, si, st in r.stmts() if st[0] == "=" and st[2][0] == "agg" and st[2][1].get("variant") == "Err")
-    if errs >= 1 and err_aggs >= 1: rep.ok(rule, "spawn failure is propagated and non-zero exit status becomes Err", nontrivial_key="runner")
-    else: rep.bad(rule, "runner-swallows", "run_git_command does not turn both spawn failures and non-zero exit into Err (? sites %d, Err returns %d)" % (errs, err_aggs), r.where())
-    st_guard = False
-    for bi, si, st in r.stmts():
-        if st[0] == "=" and st[2][0] == "agg" and st[2][1].get("variant") == "Err":
-            for d, pol, dd in mir.guards_of(r, bi):
-                if d[0] == "call" and (d[1] or "").endswith("ExitStatus::success") and pol is False: st_guard = True
-    if st_guard: rep.ok(rule, "Err returned under !status.success()")
-    else: rep.bad(rule, "runner-status", "run_git_command does not check the exit status", r.where())
+    # the runner itself: it returns Ok only when the process was spawned AND exited with success; decided on its feasible paths
+    try:
+        sps = mir.sym_paths(r, limit=40000)
+    except mir.TooManyPaths:
+        rep.undecided(rule, "runner-too-many-paths", "run_git_command has too many paths", r.where()); return
+    def mentions(e, pred, depth=0):
+        if depth > 12 or not isinstance(e, tuple): return False
+        if pred(e): return True
+        for x in e[1:]:
+            if isinstance(x, tuple) and mentions(x, pred, depth + 1): return True
+            if isinstance(x, list):
+                for y in x:
+                    if isinstance(y, tuple) and (mentions(y, pred, depth + 1) or (len(y) == 2 and isinstance(y[1], tuple) and mentions(y[1], pred, depth + 1))): return True
+        return False
+    is_output = lambda e: e[0] == "call" and isinstance(e[1], str) and e[1].endswith("process::Command::output")
+    n_ok = 0; no_spawn = 0; no_status = 0
+    for sp in sps:
+        ret = sp.ret()
+        if not (ret[0] == "agg" and str(ret[1]).endswith("Result::Ok")): continue
+        n_ok += 1
+        spawn_ok = False; status_ok = False
+        for d, truth, b in sp.facts():
+            if isinstance(truth, tuple) and d[0] == "discr" and mentions(d[1], is_output):
+                rel, vals = truth
+                if rel == "eq" and tuple(vals) == (0,): spawn_ok = True          # Ok / Continue are variant 0
+            if isinstance(truth, bool) and d[0] == "call" and str(d[1]).endswith("ExitStatus::success") and truth is True: status_ok = True
+        if not spawn_ok: no_spawn += 1
+        if not status_ok: no_status += 1
+    if n_ok == 0: rep.undecided(rule, "runner-shape", "run_git_command has no path returning Ok(..) that this rule recognises", r.where())
+    else:
+        if no_spawn: rep.bad(rule, "runner-swallows", "run_git_command can return Ok although spawning git failed (%d of %d Ok paths do not pass the Ok arm of Command::output())" % (no_spawn, n_ok), r.where())
+        else: rep.ok(rule, "every Ok return follows a successful Command::output() (%d paths)" % n_ok, nontrivial_key="runner")
+        if no_status: rep.bad(rule, "runner-status", "run_git_command can return Ok without having checked status.success() (%d of %d Ok paths)" % (no_status, n_ok), r.where())
+        else: rep.ok(rule, "every Ok return is under status.success()", nontrivial_key="runnerstatus")
 
 EXPL = ("R13.1: every panic-capable construct (Assert terminators; unwrap/expect; core::panicking; byte/usize Index; String::truncate & friends; dynamic fmt width; chrono DelayedFormat::to_string) in the "
         "call closure of cli::app::run - computed with dyn-trait fan-out, address-taken functions (Tera functions, LazyLock initialisers) and generic dispatch into local trait impls - must be discharged by a recognised "
